@@ -12,9 +12,11 @@ import (
 	"io"
 	"math/rand"
 	"os"
+	"runtime/pprof"
 	"sort"
 	"strconv"
 	"strings"
+	"syscall"
 	"time"
 )
 
@@ -79,8 +81,23 @@ func main() {
 	}
 }
 
+// silence points file descriptors 1 and 2 to /dev/null (loggers created at init time keep the original *os.File) and
+// returns a handle on the original stdout.
+func silence() *os.File {
+	devnull, _ := os.OpenFile(os.DevNull, os.O_WRONLY, 0)
+	keep, err := syscall.Dup(1)
+	realOut := os.Stdout
+	if err == nil {
+		realOut = os.NewFile(uintptr(keep), "stdout")
+	}
+	syscall.Dup3(int(devnull.Fd()), 1, 0)
+	syscall.Dup3(int(devnull.Fd()), 2, 0)
+	return realOut
+}
+
 func show() {
-	os.Stderr = nil
+	out := silence()
+	os.Stdout = out
 	wd, err := newWorld()
 	if err != nil {
 		panic(err)
@@ -109,6 +126,11 @@ func show() {
 			n++
 		}
 		fmt.Println(n, "checks in", time.Since(t0))
+		for name, st := range c.stats {
+			if st.Reached == 0 {
+				fmt.Printf("not reached: %s %+v\n", name, *st)
+			}
+		}
 		for _, m := range c.mism {
 			j, _ := json.MarshalIndent(m, "", " ")
 			fmt.Println(string(j))
@@ -117,6 +139,32 @@ func show() {
 			fmt.Println("INFRA", e)
 		}
 	}
+}
+
+func hashOf(parts ...string) uint64 {
+	h := fnv.New64a()
+	for _, p := range parts {
+		io.WriteString(h, p)
+		h.Write([]byte{0})
+	}
+	return h.Sum64()
+}
+
+// selected decides whether abstract string s is placed into position p in this tier.
+func selected(tier, s string, p *position) bool {
+	if len(s) <= 2 || tier == "thorough" {
+		return true
+	}
+	if !p.Primary {
+		return false
+	}
+	if p.Hosts > 1 && int(hashOf(s, "host")%uint64(p.Hosts)) != p.Host {
+		return false
+	}
+	if p.Group == "doLike" {
+		return true
+	}
+	return hashOf(s, p.Family)%4 == 0
 }
 
 func run(args []string) {
@@ -128,7 +176,14 @@ func run(args []string) {
 	nreps := fs.Int("reps", 1, "concretisations per (string, position) for strings longer than 2")
 	nrepsShort := fs.Int("reps-short", 3, "concretisations per (string, position) for strings of length <= 2")
 	posFilter := fs.String("positions", "", "substring filter on position names")
+	cpuprof := fs.String("cpuprofile", "", "write a CPU profile")
+	tier := fs.String("tier", "quick", "quick: strings longer than 2 go to the primary positions only (one host shape, 1/4 of them per string; all LIKE positions)")
 	fs.Parse(args)
+	if *cpuprof != "" {
+		f, _ := os.Create(*cpuprof)
+		pprof.StartCPUProfile(f)
+		defer pprof.StopCPUProfile()
+	}
 	var si, sn int
 	fmt.Sscanf(*shard, "%d/%d", &si, &sn)
 	if sn <= 0 {
@@ -141,11 +196,7 @@ func run(args []string) {
 		os.Exit(2)
 	}
 	// the reader prints every label query and some errors on stdout/stderr
-	devnull, _ := os.OpenFile(os.DevNull, os.O_WRONLY, 0)
-	realOut := os.Stdout
-	os.Stdout = devnull
-	os.Stderr = devnull
-	_ = realOut
+	realOut := silence()
 	wd, err := newWorld()
 	if err != nil {
 		fmt.Fprintln(realOut, "world:", err)
@@ -170,6 +221,9 @@ func run(args []string) {
 		}
 		out.Strings++
 		for pi, p := range positions {
+			if !selected(*tier, cs.S, p) {
+				continue
+			}
 			k := *nreps
 			if len(cs.S) <= 2 {
 				k = *nrepsShort
